@@ -11,6 +11,8 @@ var (
 	ErrSignatureInvalid = errors.New("message signature invalid")
 	// ErrShortMessage is returned if a message is too short.
 	ErrShortMessage = errors.New("message too short")
+	// ErrMessageTooLarge is returned if a message is larger than MaxEncryptedMessageSize.
+	ErrMessageTooLarge = errors.New("message too large")
 	// ErrNoPrivKey is returned if the private key is not available.
 	ErrNoPrivKey = errors.New("private key not available for peer")
 	// ErrNoPublicKey is returned when the public key cannot be extracted from a peer ID.
